@@ -90,12 +90,44 @@ Definition part_body (c : str) (num : Z) (r : Z*Z*Z*Z) (notation : Z)
       else Some (c2, add_at r ri (cdiv num den), nt)
     end.
 
+(* the two range tests added by the repair of the signed overflow (num *= n, r[r_idx] += num): a number above 10^6 in
+   absolute value and a component leaving [-10^8, 10^8] are refused.  Every component is tested when it is updated,
+   starting from 0, so testing all four after each term gives the same verdict. *)
+Definition num_in_range (c : str) : bool :=
+  if is_digit (cur c) || (cur c =? 46) then let '(n, _) := strtol10 c in (n <=? 1000000) && (-1000000 <=? n) else true.
+Definition comp_ok (x : Z) : bool := (x <=? 100000000) && (-100000000 <=? x).
+Definition vec_in_range (r : Z*Z*Z*Z) : bool :=
+  let '(a,b,c,d) := r in comp_ok a && comp_ok b && comp_ok c && comp_ok d.
+Definition part_body_checked (c : str) (num : Z) (r : Z*Z*Z*Z) (notation : Z) : option (str * (Z*Z*Z*Z) * Z) :=
+  if negb (num_in_range c) then None else
+  match part_body c num r notation with
+  | Some (c2, r2, nt2) => if vec_in_range r2 then Some (c2, r2, nt2) else None
+  | None => None
+  end.
+
 Definition part_step (c0 : str) (num0 : Z) (r : Z*Z*Z*Z) (notation : Z)
   : option (str * (Z*Z*Z*Z) * Z) :=
   let '(num, c) := if (cur c0 =? 43) || (cur c0 =? 45)
                    then ((if cur c0 =? 43 then DEN else - DEN), skip_space (adv c0))
                    else (num0, c0) in
+  part_body_checked c num r notation.
+(* the same step without the two range tests (the pinned snapshot) *)
+Definition part_step_raw (c0 : str) (num0 : Z) (r : Z*Z*Z*Z) (notation : Z)
+  : option (str * (Z*Z*Z*Z) * Z) :=
+  let '(num, c) := if (cur c0 =? 43) || (cur c0 =? 45)
+                   then ((if cur c0 =? 43 then DEN else - DEN), skip_space (adv c0))
+                   else (num0, c0) in
   part_body c num r notation.
+Lemma part_body_checked_raw : forall c num r nt x, part_body_checked c num r nt = Some x -> part_body c num r nt = Some x.
+Proof.
+  intros c num r nt x H. unfold part_body_checked in H. destruct (negb (num_in_range c)); [discriminate|].
+  destruct (part_body c num r nt) as [[[c2 r2] nt2]|]; [|discriminate]. destruct (vec_in_range r2); [exact H|discriminate].
+Qed.
+Lemma part_step_raw_of : forall c num r nt x, part_step c num r nt = Some x -> part_step_raw c num r nt = Some x.
+Proof.
+  intros c num r nt x H. unfold part_step in H. unfold part_step_raw.
+  destruct ((cur c =? 43) || (cur c =? 45)); apply part_body_checked_raw; exact H.
+Qed.
 
 Inductive res (A : Type) := Ok (a : A) | Fail | OutOfFuel.
 Arguments Ok {A} a. Arguments Fail {A}. Arguments OutOfFuel {A}.
